@@ -2,12 +2,24 @@
 
 design       : MC_FontCache with the intended cache keying (CodeKeys = FALSE): AllPure holds for
                every history of <= MaxDepth state-changing calls; ModelExact (a stale read is the
-               only way to be impure) holds for both keyings.
-spec -> impl : MC_FontCache with the code's keying prints, per reachable cache state, a history
-               and the fan of all calls; the harness runs history + call on one Font and the call
-               on a fresh Font for seven fonts and records whether the results differ.
-impl -> spec : random long histories over a richer universe, every call compared with fresh; pure
-               operations repeated in two processes.
+               only way to be impure) holds for both keyings.  Three families of fonts: intact,
+               dmg (a lazily loaded table is present but its load fails: the slot must stay
+               NotLoaded, the load is retried and fails the same way), collide (GSUB/GPOS > 64 KiB
+               with Coverage/ClassDef objects at positions congruent mod 2^16 and 2^8 and lookups at
+               indices congruent mod 2^8: ReadCache keyed by absolute position, lookup cache by index).
+               Defect classes the design excludes (a failed load stored as "absent"; ReadCache keyed
+               by a u16/u8 truncation of the position or by the offset relative to the sub-table;
+               lookup cache keyed by a u8 truncation of the index) are switched on in three small
+               runs: TLC must then predict impure histories, which shows that the universe of fonts
+               and calls can expose each class.
+spec -> impl : MC_FontCache with the code's keying prints, per reachable cache state, the font, a
+               history and the fan of all calls; the harness runs history + call on one Font and the
+               call on a fresh Font - on nine intact fonts, on every damaged variant of six base fonts
+               (table truncated to 3 bytes / not delivered by the provider), on collide fonts built
+               from the layout the CASE carries - and records whether the results differ.
+impl -> spec : random long histories over a richer universe (one third each on intact fonts, fonts
+               with damaged tables, collide fonts with a seed-dependent layout), every call compared
+               with fresh; pure operations repeated in two processes.
 Trace_FontCache replays every history through the model: a difference the model explains by a
 stale slot is reported under that slot's name, one it does not explain as unpredicted.
 """
@@ -23,8 +35,15 @@ ASSUMPTIONS = [
     "positions, kerning, placement, advances, names); image lookups through ppem and metrics",
     "a fresh font carries the same embedded-image filter as the history's last set_embedded_image_filter "
     "(configuration is an argument, not history)",
-    "seven fonts: a synthesized variable font whose GSUB FeatureVariations swap the liga lookup on half of the axis, "
+    "nine intact fonts: a synthesized variable font whose GSUB FeatureVariations swap the liga lookup on half of the "
+    "axis, two synthesized fonts carrying every lazily loaded table kind (one without GSUB, so that morx is used), "
     "sbix and SVG fixtures, Lohit Devanagari, Noto Naskh Arabic, Inter VF, Open Sans",
+    "damaged tables: GSUB, GPOS, GDEF, morx, kern, vhea, vmtx and the image tables of six base fonts, served through a "
+    "wrapping FontTableProvider that truncates the table (3 bytes; half, random histories only) or fails to deliver it; "
+    "Font::new succeeds; a variant whose load does not fail on a fresh font is dropped and counted",
+    "a panic inside a call ends the life of that Font object: the call is judged, later calls are compared after the "
+    "history without it (panics are C01's to report)",
+    "collide fonts: the texts shaped on them make every contextual rule match, as the model assumes for nested lookups",
     "the model abstracts text/script/mask/tuple arguments to identities; masks are chosen so that they stay distinct "
     "after intersection with the font's supported features",
 ]
@@ -51,13 +70,52 @@ def run(ctx):
         code = vlib.run_tlc(ctx, "MC_FontCache", cfg, "mc_code", workers=6, timeout=1500, sink=sink)
     ctx.note("MC_FontCache[code keys]: %d states, %d cases, %d (state, call) pairs predicted impure (%.1fs)"
              % (code.distinct, n_cases[0], n_pred[0], code.wall))
+    # vacuity of the new defect classes: with a class switched on, TLC must predict impure histories
+    defect_pred = {}
+    defect_states = 0
+    defect_generated = 0
+    for mode, want in (("u16", ("lazy.failedLoad", "readCache.position")),
+                       ("u8", ("readCache.position", "lookupCache.index")),
+                       ("rel", ("readCache.position",))):
+        cnt = {}
+
+        def dsink(tag, payload, cnt=cnt):
+            if tag == "CASE":
+                for f in json.loads(payload)["fan"]:
+                    for c in f["causes"]:
+                        cnt[c] = cnt.get(c, 0) + 1
+        r = vlib.run_tlc(ctx, "MC_FontCache", "MC_FontCache_defect_%s.cfg" % mode, "mc_defect_" + mode, workers=4,
+                         timeout=600, sink=dsink)
+        defect_states += r.distinct
+        defect_generated += r.generated
+        for c in want:
+            if cnt.get(c, 0) == 0:
+                raise vlib.ToolError("vacuous universe: defect run %s predicts no impure call with cause %s" % (mode, c))
+            defect_pred["%s/%s" % (mode, c)] = cnt[c]
+    ctx.note("MC_FontCache[defect classes on]: impure (state, call) pairs predicted per class: %s" % json.dumps(defect_pred, sort_keys=True))
 
     gen_trace = ctx.path("gen_trace.ndjson")
     rep = vlib.run_harness(binp, ["replay", cases_path, gen_trace], timeout=3000)
-    ctx.note("replay: %s" % json.dumps(rep))
     rec_trace = ctx.path("rec_trace.ndjson")
-    rec = vlib.run_harness(binp, ["record", ctx.seed, 70 if ctx.quick else 1400, 40 if ctx.quick else 80, rec_trace], timeout=3000)
-    ctx.note("record: %s" % json.dumps(rec))
+    rec = vlib.run_harness(binp, ["record", ctx.seed, 90 if ctx.quick else 1500, 40 if ctx.quick else 80, rec_trace], timeout=3000)
+    selfchecks = rep.pop("collide_selfcheck", []) + rec.pop("collide_selfcheck", [])
+    ctx.note("replay: %s" % json.dumps(rep, sort_keys=True))
+    ctx.note("record: %s" % json.dumps(rec, sort_keys=True))
+    # generator self-checks: the synthesized fonts are what the model says they are
+    if len(selfchecks) < 6:
+        raise vlib.ToolError("collide fonts missing: %s" % json.dumps(selfchecks))
+    for sc in selfchecks:
+        if (sc["objects_found_at_position"] != sc["objects_expected"] or sc["objects_expected"] == 0
+                or sc["tables_over_64k"] < 1 or sc["alias_pairs_u16"] < 2 or sc["alias_pairs_u8"] <= sc["alias_pairs_u16"]
+                or sc["alias_pairs_rel"] < 1 or sc["alias_pairs_lookup_index_u8"] < 1
+                or sc["distinct_results"] != sc["feature_sets"]):
+            raise vlib.ToolError("collide font does not have the layout the model dictates: %s" % json.dumps(sc))
+    hb = rep.get("histories_by_family", {})
+    if (hb.get("dmg", 0) == 0 or hb.get("collide", 0) == 0 or rep.get("damaged_probes_reporting_the_error", 0) == 0
+            or rep.get("damaged_variants", 0) < 20 or rec.get("damaged_calls_reporting_the_error", 0) == 0
+            or rec.get("histories_by_family", {}).get("dmg", 0) == 0 or rec.get("histories_by_family", {}).get("collide", 0) == 0):
+        raise vlib.ToolError("vacuous run: damaged-table or colliding-cache histories were not executed: %s / %s"
+                             % (json.dumps(rep), json.dumps(rec)))
     # pure operations: two runs in-process, and a second process
     r1, r2 = ctx.path("repeat1.ndjson"), ctx.path("repeat2.ndjson")
     vlib.run_harness(binp, ["repeat", ctx.seed, r1], timeout=1500)
@@ -79,17 +137,33 @@ def run(ctx):
             f.write(json.dumps({"i": i, "case": "repeat/%s/%s" % (font, op), "ev": "Repeat", "a": {"font": font, "op": op},
                                 "o": {"digests": ds}}) + "\n")
         # binding self-check: (1) a call flagged 'differs' that the model cannot explain, (2) unequal digests
-        f.write(json.dumps({"i": 10 ** 8, "case": "selftest-1", "ev": "Init", "a": {"font": "x"}, "o": {}}) + "\n")
+        plain = {"fam": "intact", "damaged": [], "lookups": []}
+        f.write(json.dumps({"i": 10 ** 8, "case": "selftest-1", "ev": "Init", "a": {"font": plain}, "o": {}}) + "\n")
         f.write(json.dumps({"i": 10 ** 8 + 1, "case": "selftest-1", "ev": "Call",
                             "a": {"call": {"op": "HAdvance", "g": 1}, "probe": False}, "o": {"differs": True}}) + "\n")
         f.write(json.dumps({"i": 10 ** 8 + 2, "case": "selftest-2", "ev": "Repeat", "a": {"font": "x", "op": "subset"},
                             "o": {"digests": ["a:1", "a:1", "b:1"]}}) + "\n")
+        # (3) a damaged table whose accessor answers differently the second time, (4) a collide font on which
+        # shaping with one feature differs after shaping with another: the model of the code explains neither
+        f.write(json.dumps({"i": 10 ** 8 + 3, "case": "selftest-3", "ev": "Init",
+                            "a": {"font": {"fam": "dmg", "damaged": ["gpos"], "lookups": []}}, "o": {}}) + "\n")
+        tq = {"op": "Table", "k": "gpos"}
+        f.write(json.dumps({"i": 10 ** 8 + 4, "case": "selftest-3", "ev": "Call", "a": {"call": tq, "probe": False}, "o": {"differs": False}}) + "\n")
+        f.write(json.dumps({"i": 10 ** 8 + 5, "case": "selftest-3", "ev": "Call", "a": {"call": tq, "probe": False}, "o": {"differs": True}}) + "\n")
+        cases = vlib.read_ndjson(cases_path)
+        cf = [c for c in cases if c["font"]["fam"] == "collide" and len(c["path"]) == 1]
+        if not cf:
+            raise vlib.ToolError("no collide case generated")
+        f.write(json.dumps({"i": 10 ** 8 + 6, "case": "selftest-4", "ev": "Init", "a": {"font": cf[0]["font"]}, "o": {}}) + "\n")
+        f.write(json.dumps({"i": 10 ** 8 + 7, "case": "selftest-4", "ev": "Call", "a": {"call": cf[0]["path"][0], "probe": False}, "o": {"differs": False}}) + "\n")
+        other_call = [x["call"] for x in cf[0]["fan"] if x["call"]["op"] == "Shape" and x["call"] != cf[0]["path"][0]][0]
+        f.write(json.dumps({"i": 10 ** 8 + 8, "case": "selftest-4", "ev": "Call", "a": {"call": other_call, "probe": True}, "o": {"differs": True}}) + "\n")
     other = {"IMPURE": []}
     total, mism = vlib.judge_trace_parallel(ctx, "Trace_FontCache", "Trace_FontCache.cfg", trace, "judge",
                                             parts=8 if ctx.quick else 14, other_tags=other, timeout=3000)
     ctx.note("judge: %d events, %d explained impurities, %d unexplained" % (total, len(other["IMPURE"]), len(mism)))
     planted = {m["case"] for m in mism if m["case"].startswith("selftest")}
-    if planted != {"selftest-1", "selftest-2"}:
+    if planted != {"selftest-1", "selftest-2", "selftest-3", "selftest-4"}:
         raise vlib.ToolError("binding self-check failed: planted events flagged = %s" % sorted(planted))
     violations = []
     for m in other["IMPURE"]:
@@ -108,21 +182,35 @@ def run(ctx):
             what = "%s differs from a fresh font and the cache model has no stale read (case %s)" % (vlib.short(m["call"], 160), m["case"])
         violations.append(Violation(key, what, m))
     coverage = {
-        "states": good.distinct + code.distinct,
-        "transitions": good.generated + code.generated,
-        "traces_validated_against_impl": rep["cases"] * rep["fonts"] + rec["histories"] + len(groups),
+        "states": good.distinct + code.distinct + defect_states,
+        "transitions": good.generated + code.generated + defect_generated,
+        "traces_validated_against_impl": rep["histories"] + rec["histories"] + len(groups),
         "samples": sample + [{"repeat": k, "digests": v} for k, v in list(sorted(groups.items()))[:2]],
         "intended_keying_states": good.distinct,
         "code_keying_states": code.distinct,
         "predicted_impure_state_call_pairs": n_pred[0],
         "probes_executed": rep["probes"],
+        "generated_histories_executed_by_family": rep["histories_by_family"],
+        "probes_by_family": rep["probes_by_family"],
+        "probes_differing_by_family": rep.get("differs_by_family", {}),
+        "damaged_table_histories_executed": rep["histories_by_family"].get("dmg", 0) + rec["histories_by_family"].get("dmg", 0),
+        "colliding_cache_histories_executed": rep["histories_by_family"].get("collide", 0) + rec["histories_by_family"].get("collide", 0),
+        "damaged_font_variants": rep["damaged_variants"],
+        "damaged_font_variants_dropped_load_did_not_fail": rep["damaged_variants_dropped"],
+        "damaged_probes_reporting_the_error": rep["damaged_probes_reporting_the_error"],
+        "random_damaged_calls_reporting_the_error": rec["damaged_calls_reporting_the_error"],
+        "random_histories_by_family": rec["histories_by_family"],
+        "random_calls_that_panicked": rec["calls_that_panicked"],
+        "probes_cut_by_a_panic_in_the_history": rep["probes_cut_by_a_panic_in_the_history"],
+        "collide_font_selfchecks": selfchecks[:3],
+        "defect_class_predictions": defect_pred,
         "probes_differing_from_fresh": rep["differs"],
         "random_history_calls": rec["events"],
         "random_history_calls_differing": rec["differs"],
         "explained_impurities": len(other["IMPURE"]),
         "pure_operation_groups_repeated": len(groups),
         "events_judged": total,
-        "binding_selfcheck": "unexplained difference and unequal digests rejected",
+        "binding_selfcheck": "unexplained differences (intact, damaged-table and collide fonts) and unequal digests rejected",
         "exhaustive": True,
         "explanation": "exhaustive over histories of the cache model (%s); random histories and repeated pure operations sampled" % cfg,
     }
